@@ -172,15 +172,33 @@ fn run(id: &str, tier: Tier, child: bool) -> i32 {
     let cases_override = std::env::var("VERIF_CASES").ok().and_then(|s| s.parse().ok());
     // wall-clock watchdog: a hang is inconclusive, never a pass and never a violation
     let limit_s: u64 = std::env::var("VERIF_WATCHDOG_S").ok().and_then(|s| s.parse().ok()).unwrap_or(match tier {
-        Tier::Quick => 1500,
+        Tier::Quick => 900,
         Tier::Thorough => 6 * 3600,
     });
     let idc = def.id.to_string();
+    let case_limit_s: u64 = std::env::var("VERIF_CASE_LIMIT_S").ok().and_then(|s| s.parse().ok()).unwrap_or(120);
     std::thread::spawn(move || {
-        std::thread::sleep(std::time::Duration::from_secs(limit_s));
-        println!("INCONCLUSIVE: watchdog: {} still running after {} s", idc, limit_s);
-        let _ = std::io::stdout().flush();
-        exit(2);
+        let t0 = std::time::Instant::now();
+        loop {
+            std::thread::sleep(std::time::Duration::from_secs(2));
+            if let Some(g) = runner::overdue_case(std::time::Duration::from_secs(case_limit_s)) {
+                let f = runner::Found {
+                    genome: g,
+                    failure: runner::Failure::new("watchdog|case-timeout", format!("a single case ran for more than {} s (typical: micro- to milliseconds): possible non-termination", case_limit_s)),
+                    desc: None,
+                    origin: "per-case watchdog".into(),
+                };
+                let path = runner::write_replay(&format!("{}-hang", idc), &f);
+                println!("INCONCLUSIVE: watchdog: a case of {} exceeded {} s; the in-flight case was saved to {} (replaying it may hang as well)", idc, case_limit_s, path);
+                let _ = std::io::stdout().flush();
+                exit(2);
+            }
+            if t0.elapsed().as_secs() > limit_s {
+                println!("INCONCLUSIVE: watchdog: {} still running after {} s", idc, limit_s);
+                let _ = std::io::stdout().flush();
+                exit(2);
+            }
+        }
     });
     if let Err(e) = selftest::run(false) {
         println!("INCONCLUSIVE: oracle self-test failed: {}", e);
